@@ -5,7 +5,13 @@
 (* cloned, extended and executed in any order.                             *)
 (*                                                                         *)
 (* State st = [ctxs  : object id -> (program name -> [tree, src]),        *)
-(*             binds : object id -> (variable name -> value)]              *)
+(*             binds : object id -> (variable name -> value),              *)
+(*             funcs : object id -> (function name -> model function)]     *)
+(* A binding object carries values and user functions (C12: in call       *)
+(* position a bound function wins); cloning copies both.  SerRound takes   *)
+(* the stored program of one context through serialization and back and   *)
+(* stores it in a (possibly different) context under a (possibly          *)
+(* different) name: by C19 the copy is the same program.                   *)
 (* Apply(st, ev) is the effect of one API call; Exec and Details change   *)
 (* nothing (purity); a clone is a copy (independence); add/bind replace.  *)
 (* ExecOutcome(st, ev) is the abstract outcome Eval allows for an Exec:   *)
@@ -16,15 +22,24 @@ EXTENDS Eval
 
 EmptyFn == [x \in {} |-> 0]
 Put(f, k, v) == [x \in (DOMAIN f) \cup {k} |-> IF x = k THEN v ELSE f[x]]
-St0 == [ctxs |-> EmptyFn, binds |-> EmptyFn]
+St0 == [ctxs |-> EmptyFn, binds |-> EmptyFn, funcs |-> EmptyFn]
+
+(* the user functions the harness can bind: each ignores its arguments and returns a fixed outcome *)
+FuncModel == [k7   |-> [o |-> "ok", v |-> VInt(BFromInt(7))],
+              k9   |-> [o |-> "ok", v |-> VInt(BFromInt(9))],
+              kerr |-> [o |-> "err", c |-> "other"]]
 
 Apply(st, ev) ==
     CASE ev.a = "NewCtx"    -> [st EXCEPT !.ctxs = Put(st.ctxs, ev.c, EmptyFn)]
       [] ev.a = "CloneCtx"  -> [st EXCEPT !.ctxs = Put(st.ctxs, ev.as, st.ctxs[ev.c])]
       [] ev.a = "AddProgram" -> IF ev.ok THEN [st EXCEPT !.ctxs = Put(st.ctxs, ev.c, Put(st.ctxs[ev.c], ev.n, [tree |-> ev.tree, src |-> ev.src]))]
                                 ELSE st
-      [] ev.a = "NewBind"   -> [st EXCEPT !.binds = Put(st.binds, ev.b, EmptyFn)]
-      [] ev.a = "CloneBind" -> [st EXCEPT !.binds = Put(st.binds, ev.as, st.binds[ev.b])]
+      [] ev.a = "SerRound"  -> IF ev.ok /\ ev.n \in DOMAIN st.ctxs[ev.c]
+                               THEN [st EXCEPT !.ctxs = Put(st.ctxs, ev.to, Put(st.ctxs[ev.to], ev.as, st.ctxs[ev.c][ev.n]))]
+                               ELSE st
+      [] ev.a = "NewBind"   -> [st EXCEPT !.binds = Put(st.binds, ev.b, EmptyFn), !.funcs = Put(st.funcs, ev.b, EmptyFn)]
+      [] ev.a = "CloneBind" -> [st EXCEPT !.binds = Put(st.binds, ev.as, st.binds[ev.b]), !.funcs = Put(st.funcs, ev.as, st.funcs[ev.b])]
+      [] ev.a = "BindFunc"  -> [st EXCEPT !.funcs = Put(st.funcs, ev.b, Put(st.funcs[ev.b], ev.n, ev.f))]
       [] ev.a = "BindParam" -> [st EXCEPT !.binds = Put(st.binds, ev.b, Put(st.binds[ev.b], ev.n, ev.v))]
       [] OTHER -> st         \* Exec, Details, serialization round trips: no effect on any object
 
@@ -32,11 +47,12 @@ Progs(st, c) == [n \in DOMAIN st.ctxs[c] |-> st.ctxs[c][n].tree]
 ExecOutcome(st, ev) ==
     IF ~(ev.n \in DOMAIN st.ctxs[ev.c]) THEN [o |-> Err("absent"), log |-> <<>>, lk |-> TRUE]
     ELSE \* the program of that name is run (a variable of the same name does not stand in for it), entered like a reference
-         LET e2 == [Env0(st.binds[ev.b], Progs(st, ev.c), EmptyFn) EXCEPT !.u = 1, !.h = 1, !.path = {<<ev.n, st.binds[ev.b]>>}]
+         LET e2 == [Env0(st.binds[ev.b], Progs(st, ev.c), [f \in DOMAIN st.funcs[ev.b] |-> FuncModel[st.funcs[ev.b][f]]]) EXCEPT !.u = 1, !.h = 1, !.path = {<<ev.n, st.binds[ev.b]>>}]
              e == AtDepth(e2, Eval(Progs(st, ev.c)[ev.n], e2))
          IN IF \E i \in 1..Len(e.log) : e.log[i] = "#depth" THEN [o |-> Weaken(e.o), log |-> <<>>, lk |-> FALSE] ELSE e
 
 (* what the harness can observe of the state: sources by name, values by name *)
 Projection(st) == [ctxs |-> [c \in DOMAIN st.ctxs |-> [n \in DOMAIN st.ctxs[c] |-> st.ctxs[c][n].src]],
-                   binds |-> st.binds]
+                   binds |-> st.binds,
+                   funcs |-> st.funcs]
 =============================================================================
